@@ -276,6 +276,189 @@ theorem any_history_then_release_all_is_clean (n : Nat) (ops : List Op) (h h' : 
     (hrun : run (Heap.init n) ops = .ok h) (hrel : deinitAll h h.vars.length = .ok h') : ∀ b, h'.rc b = 0 :=
   no_leak_after_release_all h h' (run_inv ops _ h (init_inv n) hrun) hrel
 
+/-! ### "released exactly once": counting the deallocations
+
+`frees` is a ghost counter of executed `deallocate` statements (`deinit` raises it exactly when it
+deallocates).  Invariant: deallocations so far + live blocks = blocks allocated so far.  With
+`free_only_last_reference` (a deallocated block has count 0 and no variable bound to it, so it can
+never be reached by a `deinit` again) this is "every allocated block is released exactly once" once
+no block is live. -/
+
+def liveCount (h : Heap) : Nat := (List.range h.next).countP (fun b => decide (0 < h.rc b))
+
+theorem countP_range_congr (p p' : Nat → Bool) : ∀ n, (∀ x, x < n → p' x = p x) →
+    (List.range n).countP p' = (List.range n).countP p
+  | 0, _ => rfl
+  | n + 1, h => by
+    rw [List.range_succ, List.countP_append, List.countP_append,
+      countP_range_congr p p' n (fun x hx => h x (by omega))]
+    simp [h n (by omega)]
+
+theorem countP_range_flip_up (p p' : Nat → Bool) (b : Nat) : ∀ n, b < n → p b = false → p' b = true →
+    (∀ x, x ≠ b → p' x = p x) → (List.range n).countP p' = (List.range n).countP p + 1
+  | 0, hb, _, _, _ => by omega
+  | n + 1, hb, h0, h1, hx => by
+    rw [List.range_succ, List.countP_append, List.countP_append]
+    by_cases hbn : b = n
+    · subst hbn
+      rw [countP_range_congr p p' b (fun x hlt => hx x (by omega))]
+      simp [h0, h1]
+    · rw [countP_range_flip_up p p' b n (by omega) h0 h1 hx]
+      simp [hx n (Ne.symm hbn)]
+      omega
+
+theorem countP_range_flip_down (p p' : Nat → Bool) (b n : Nat) (hb : b < n) (h0 : p b = true) (h1 : p' b = false)
+    (hx : ∀ x, x ≠ b → p' x = p x) : (List.range n).countP p' + 1 = (List.range n).countP p :=
+  (countP_range_flip_up p' p b n hb h1 h0 (fun x hxb => (hx x hxb).symm)).symm
+
+/-- deallocations so far + live blocks = blocks allocated so far -/
+def Accounted (h : Heap) : Prop := h.frees + liveCount h = h.next
+
+theorem init_accounted (n : Nat) : Accounted (Heap.init n) := by
+  simp [Accounted, Heap.init, liveCount]
+
+theorem alloc_accounted {h : Heap} (ha : Accounted h) (i : Nat) : Accounted (h.alloc i) := by
+  unfold Accounted liveCount at *
+  simp only [Heap.alloc]
+  rw [List.range_succ, List.countP_append]
+  rw [countP_range_congr (fun b => decide (0 < h.rc b)) _ h.next (fun x hx => by simp [Nat.ne_of_lt hx])]
+  simp
+  omega
+
+/-- changing a positive count to a positive count does not change which blocks are live -/
+theorem setRc_pos_live (h : Heap) (b n : Nat) (hold : 0 < h.rc b) (hn : 0 < n) :
+    liveCount (h.setRc b n) = liveCount h := by
+  unfold liveCount
+  simp only [Heap.setRc]
+  apply countP_range_congr
+  intro x _
+  by_cases hxb : x = b
+  · subst hxb; simp [hold, hn]
+  · simp [hxb]
+
+/-- the last reference goes: one live block fewer -/
+theorem setRc_zero_live (h : Heap) (b : Nat) (hold : 0 < h.rc b) (hb : b < h.next) :
+    liveCount (h.setRc b 0) + 1 = liveCount h := by
+  unfold liveCount
+  simp only [Heap.setRc]
+  exact countP_range_flip_down _ _ b h.next hb (by simp; omega) (by simp) (fun x hxb => by simp [hxb])
+
+theorem allocCheck_accounted {h h' : Heap} (inv : Inv h) (ha : Accounted h) {i : Nat}
+    (hr : allocCheck h i = .ok h') : Accounted h' := by
+  unfold allocCheck at hr
+  split at hr
+  · cases hr
+  · cases hr; exact alloc_accounted ha i
+  · rename_i b hv
+    have hlive := bound_is_live inv hv
+    split at hr
+    · rename_i hne
+      cases hr
+      -- the shared block stays live (count at least two), then a fresh block is taken
+      have h1 : liveCount (h.setRc b (h.rc b - 1)) = liveCount h := setRc_pos_live h b _ (by omega) (by omega)
+      have ha2 : Accounted (h.setRc b (h.rc b - 1)) := by
+        unfold Accounted at *
+        rw [h1]; exact ha
+      exact alloc_accounted ha2 i
+    · cases hr; exact ha
+
+theorem deinit_accounted {h h' : Heap} (inv : Inv h) (ha : Accounted h) {i : Nat}
+    (hr : deinit h i = .ok h') : Accounted h' := by
+  unfold deinit at hr
+  split at hr
+  · cases hr
+  · cases hr; exact ha
+  · rename_i b hv
+    have hlive := bound_is_live inv hv
+    have hblt := bound_lt_next inv hv
+    split at hr
+    · rename_i hone
+      cases hr
+      -- the last reference: the block is deallocated, one live block fewer, one deallocation more
+      have h0 := setRc_zero_live h b (by omega) hblt
+      unfold Accounted at *
+      have e1 : liveCount { (h.setRc b 0) with vars := h.vars.set i none, frees := h.frees + 1 } =
+          liveCount (h.setRc b 0) := rfl
+      rw [e1]
+      show h.frees + 1 + liveCount (h.setRc b 0) = h.next
+      omega
+    · rename_i hne
+      cases hr
+      have h1 : liveCount (h.setRc b (h.rc b - 1)) = liveCount h := setRc_pos_live h b _ (by omega) (by omega)
+      unfold Accounted at *
+      have e1 : liveCount { (h.setRc b (h.rc b - 1)) with vars := h.vars.set i none } =
+          liveCount (h.setRc b (h.rc b - 1)) := rfl
+      rw [e1, h1]
+      exact ha
+
+theorem move_accounted {h h' : Heap} (inv : Inv h) (ha : Accounted h) {d s : Nat}
+    (hr : move h d s = .ok h') : Accounted h' := by
+  unfold move at hr
+  split at hr
+  · cases hr
+  · split at hr
+    · cases hr
+    · rename_i h1 hd
+      obtain ⟨inv1, _, _⟩ := deinit_inv inv hd
+      have ha1 := deinit_accounted inv ha hd
+      split at hr
+      · cases hr
+      · cases hr
+      · rename_i b hv
+        cases hr
+        have hlive := bound_is_live inv1 hv
+        have h2 : liveCount (h1.setRc b (h1.rc b + 1)) = liveCount h1 := setRc_pos_live h1 b _ (by omega) (by omega)
+        unfold Accounted at *
+        have e1 : liveCount { (h1.setRc b (h1.rc b + 1)) with vars := h1.vars.set d (some b) } =
+            liveCount (h1.setRc b (h1.rc b + 1)) := rfl
+        rw [e1, h2]
+        exact ha1
+
+theorem step_accounted {h h' : Heap} (inv : Inv h) (ha : Accounted h) {op : Op} (hr : step h op = .ok h') :
+    Accounted h' := by
+  cases op with
+  | allocCheck i => exact allocCheck_accounted inv ha hr
+  | deinit i => exact deinit_accounted inv ha hr
+  | move d s => exact move_accounted inv ha hr
+
+theorem run_accounted : ∀ (ops : List Op) (h h' : Heap), Inv h → Accounted h → run h ops = .ok h' → Accounted h'
+  | [], h, h', _, ha, hr => by simp [run] at hr; subst hr; exact ha
+  | op :: ops, h, h', inv, ha, hr => by
+    simp only [run] at hr
+    split at hr
+    · cases hr
+    · rename_i h1 hs
+      exact run_accounted ops h1 h' (step_inv inv hs) (step_accounted inv ha hs) hr
+
+theorem deinitAll_accounted : ∀ (n : Nat) (h h' : Heap), Inv h → Accounted h → n ≤ h.vars.length →
+    deinitAll h n = .ok h' → Accounted h'
+  | 0, h, h', _, ha, _, hr => by simp [deinitAll] at hr; subst hr; exact ha
+  | n + 1, h, h', inv, ha, hn, hr => by
+    simp only [deinitAll] at hr
+    split at hr
+    · cases hr
+    · rename_i h1 h1r
+      obtain ⟨inv1, _, _, _⟩ := deinitAll_spec n h h1 inv (by omega) h1r
+      exact deinit_accounted inv1 (deinitAll_accounted n h h1 inv ha (by omega) h1r) hr
+
+/-- **Every block is released exactly once**: for every operation sequence from the initial state
+    followed by the release of every variable, the number of executed deallocations equals the
+    number of blocks ever allocated (and no block is live: `any_history_then_release_all_is_clean`;
+    a block is deallocated only through its last reference: `free_only_last_reference`) -/
+theorem every_block_released_exactly_once (n : Nat) (ops : List Op) (h h' : Heap)
+    (hrun : run (Heap.init n) ops = .ok h) (hrel : deinitAll h h.vars.length = .ok h') :
+    h'.frees = h'.next := by
+  have inv := run_inv ops _ h (init_inv n) hrun
+  have acc := run_accounted ops _ h (init_inv n) (init_accounted n) hrun
+  have acc' := deinitAll_accounted h.vars.length h h' inv acc (Nat.le_refl _) hrel
+  have clean := no_leak_after_release_all h h' inv hrel
+  unfold Accounted liveCount at acc'
+  have : (List.range h'.next).countP (fun b => decide (0 < h'.rc b)) = 0 := by
+    rw [List.countP_eq_zero]
+    intro b _
+    simp [clean b]
+  omega
+
 /-! non-vacuity: allocate `v0`, move it to `v1`, write to `v0` (copy-on-write takes a fresh block),
     release both -/
 example : (match run (Heap.init 2) [.allocCheck 0, .move 1 0, .allocCheck 0, .deinit 0, .deinit 1] with
